@@ -1,4 +1,5 @@
 import FimVerif.Proofs.Lemmas.C12Codec
+import FimVerif.Proofs.Lemmas.C12Add
 import FimVerif.Proofs.Lemmas.C12Pools
 /-!
 # C12 — delegations and pools survive encoding and regrouping unchanged
@@ -112,12 +113,70 @@ theorem decode_rejects_other_type (ops : DetailOps D) (ds : Delegations D) (h : 
   | definition =>
     simp [encPure, hf, decodeEntry, lookup, k1, k1.symm, k2, k2.symm, k3, poolOf, bind, Except.bind] at hb
 
-/-- a second delegation under an id already present is rejected -/
-theorem rejects_duplicate_id (ds : Delegations D) (d e : Delegation D) (hty : d.ty = ds.ty)
+/-! `add_delegations(*args)` is modelled call by call (`addDelegations ds args`: the container afterwards and
+the exception, if any). -/
+
+/-- **the call is accepted exactly when** every argument has the container's type, no argument's id is already
+in the container and no two arguments of the call share an id; then the arguments are appended in order -/
+theorem add_delegations_accepts_iff (ds : Delegations D) (args : List (Delegation D)) :
+    ((addDelegations ds args).2 = none ↔ CallOk ds args) ∧
+    (CallOk ds args → (addDelegations ds args).1 = { ds with items := ds.items ++ args }) :=
+  ⟨addDelegations_accepts_iff ds args, addDelegations_state_ok ds args⟩
+
+/-- **duplicate ids are always rejected**, wherever the two holders of the id are: one in the container (an
+earlier call) and one among the arguments, or both among the arguments of ONE call -/
+theorem rejects_duplicate_id (ds : Delegations D) (args : List (Delegation D))
+    (hdup : (∃ e ∈ ds.items, ∃ a ∈ args, e.id = a.id) ∨ ¬ args.Pairwise (fun a b => a.id ≠ b.id)) :
+    (addDelegations ds args).2 ≠ none := by
+  intro h
+  obtain ⟨_, h2, h3⟩ := (addDelegations_accepts_iff ds args).mp h
+  rcases hdup with ⟨e, he, a, ha, heq⟩ | hnp
+  · exact h2 a ha e he heq
+  · exact hnp h3
+
+/-- the same by position: the arguments at any two positions of one call share an id ⇒ the call is rejected,
+with `DelegationException` when all arguments have the container's type -/
+theorem rejects_duplicate_in_call (ds : Delegations D) (pre mid post : List (Delegation D)) (a b : Delegation D)
+    (hid : a.id = b.id) :
+    (addDelegations ds (pre ++ a :: mid ++ b :: post)).2 ≠ none ∧
+    ((∀ x ∈ pre ++ a :: mid ++ b :: post, x.ty = ds.ty) →
+      (addDelegations ds (pre ++ a :: mid ++ b :: post)).2 = some .delegation) := by
+  have hrej : (addDelegations ds (pre ++ a :: mid ++ b :: post)).2 ≠ none := by
+    apply rejects_duplicate_id ds _ (Or.inr _)
+    intro hp
+    exact (List.pairwise_append.mp hp).2.2 a (by simp) b (by simp) hid
+  refine ⟨hrej, fun hty => ?_⟩
+  cases h : (addDelegations ds (pre ++ a :: mid ++ b :: post)).2 with
+  | none => exact absurd h hrej
+  | some e => rw [addDelegations_err_kind ds _ hty e h]
+
+/-- across calls (the one-argument call): a second delegation under an id already present is rejected -/
+theorem rejects_duplicate_across_calls (ds : Delegations D) (d e : Delegation D) (hty : d.ty = ds.ty)
     (he : e ∈ ds.items) (hid : e.id = d.id) : addDelegation ds d = .error .delegation := by
   have : hasId ds.items d.id = true := by
     simp only [hasId, List.any_eq_true]; exact ⟨e, he, by simp [hid]⟩
   simp [addDelegation, hty, this]
+
+/-- a call in which some argument has the other type is rejected, wherever that argument stands -/
+theorem rejects_mixed_in_call (ds : Delegations D) (args : List (Delegation D)) (a : Delegation D)
+    (ha : a ∈ args) (hty : a.ty ≠ ds.ty) : (addDelegations ds args).2 ≠ none := by
+  intro h
+  exact hty (((addDelegations_accepts_iff ds args).mp h).1 a ha)
+
+/-- what a call leaves behind (the code as it is: the loop stores argument by argument): the container plus
+the longest prefix of the arguments that is acceptable; all of them iff the call is accepted -/
+theorem add_delegations_state (ds : Delegations D) (args : List (Delegation D)) :
+    ∃ pre suf, args = pre ++ suf ∧ (addDelegations ds args).1 = { ds with items := ds.items ++ pre } ∧
+      CallOk ds pre ∧ ((addDelegations ds args).2 = none → suf = []) ∧
+      ((addDelegations ds args).2 ≠ none → ∃ x rest, suf = x :: rest ∧ ¬ CallOk ds (pre ++ [x])) :=
+  addDelegations_state_prefix ds args
+
+/-- non-vacuity: `add_delegations(d1, d2, d1')` with `d1'.id = d1.id` keeps `d1, d2` and raises -/
+example :
+    let d1 : Delegation Det := { ty := .cap, id := "a", fmt := .single, pool := none, details := some capEx }
+    let d2 : Delegation Det := { ty := .cap, id := "b", fmt := .reference, pool := some "p", details := none }
+    let d3 : Delegation Det := { ty := .cap, id := "a", fmt := .reference, pool := some "p", details := none }
+    addDelegations { ty := .cap, items := [] } [d1, d2, d3] = ({ ty := .cap, items := [d1, d2] }, some .delegation) := rfl
 
 /-- details are never accepted on a pool reference (API) -/
 theorem rejects_details_on_reference (ops : DetailOps D) (d : Delegation D) (x : D) (h : d.fmt = .reference) :
